@@ -28,7 +28,8 @@ CHECKS = {
    text="TLC checks Peer.tla exhaustively for representative pairs x {NULL, PLAIN good/bad password, ENC good/bad server key} under "
         "every schedule (NoStall, IncompatibleNeverUp, CompatibleNeverFails, Agree, liveness Converge/BothFail) and the verdict for "
         "all 11x11 socket types over ZMTP/3 and ZMTP/2.0; all verdict behaviours and simulated schedules are replayed on two real "
-        "engines (real PLAIN/CURVE/Noise_XX), the outcome judged on the real HandshakeComplete / PeerError actions.",
+        "engines (real PLAIN/CURVE/Noise_XX), the outcome judged on the real HandshakeComplete / PeerError actions; every ZMTP/2.0 verdict "
+        "is also replayed under every segmentation of the legacy peer's bytes (one read, per token, per byte, random cuts).",
    note="EOF propagation (a closed side takes the transport down) is modelled, not exercised at engine level. The inproc table is a "
         "listed known finding (C05-b). Trusted: harness compat table (RFC transcription) and projection.",
    technique="TLA+ spec (Engine/Peer/Script.tla) + TLC incl. liveness; TLC behaviours replayed on two real engines",
@@ -45,7 +46,8 @@ CHECKS = {
  "C07": dict(
    text="TLC checks Script.tla (engine total on every token in every phase, ClosedStays, PartialBounded) for all roles and "
         "Wire.tla (LimitExact, AccBound); behaviours are replayed on the real engine under catch_unwind with MAXMSGSIZE set, each "
-        "also with seeded byte mutations (bit flips, truncation, length extremes, invalid UTF-8, random bytes); MORE-runs are "
+        "also with seeded byte mutations (bit flips, truncation, length extremes, invalid UTF-8, random bytes) and, systematically, every "
+        "command of every valid transcript with its body ending after 0, 1, 2, ... bytes under a consistent frame header; MORE-runs are "
         "expanded to the real 255-frame cap; limit verdicts go through every decoder entry point.",
    note="Mutations are seeded samples. Handshake-interval and connection-slot behaviour of the session actor belong to the "
         "socket-level part. Trusted: harness concretiser and buffer bound formula.",
@@ -87,7 +89,8 @@ CHECKS = {
         "order, intact, nothing accepted is lost); Session.tla models the session actor's batch assembly (carry-over, count / "
         "logical / physical limits, HWM budget) and is checked exhaustively by TLC (InOrder, Conserved, EgressBound, AllOut). "
         "Real sockets (PUSH/PULL, DEALER/ROUTER, REQ/REP x tcp/ipc/inproc x both runtimes x HWM/batch/throttle/cork options x "
-        "sizes from the model's boundary analysis x receiver pacing x time of first send) produce API histories which TLC "
+        "sizes from the model's boundary analysis x receiver pacing x time of first send, bursts of 6000 DEALER send() calls begun before the "
+        "connection exists) produce API histories which TLC "
         "validates against Delivery.tla (Trace_Delivery); a rejected history is a violation.",
    note="One sending task per connection; Tokio schedules are observed, not enumerated; payload integrity checked by "
         "position-dependent fill. Trusted: history->event conversion in tools/props/socklib.py.",
@@ -176,7 +179,7 @@ CHECKS = {
         "{-1, 0, bounded}): DeliveredPrefix, DropOnlyWhenAllowed, AllDelivered, Linger0Prompt, BoundedClose, SessionDeadline - and must "
         "find a counterexample under each of three switches that describe the pinned revision. Real sockets are closed (close / term / "
         "handle drop) with 0 .. 3000 messages of 64 B .. 200 kB queued (beyond SNDHWM and kernel buffers), LINGER in {-1, 0, 300 ms .. 10 s}, "
-        "reading, paced and stalled peers, tcp / ipc / inproc, PUSH-PULL, DEALER-ROUTER, ROUTER-DEALER, PUB-SUB; the recorded history "
+        "reading, paced and stalled peers, uniform and mixed message sizes, tcp / ipc / inproc, PUSH-PULL, DEALER-ROUTER, ROUTER-DEALER, PUB-SUB; the recorded history "
         "(accepted sends, the close call, hook events of the socket core and of the session with what each dropped and when, what the "
         "peer received and whether intact) sets the variables of Linger.tla in Trace_Linger.tla and TLC evaluates Linger's own invariants "
         "on every state of every run.",
@@ -191,7 +194,7 @@ CHECKS = {
         "NamesFree, TermMeansAllGone, Terminates, CloseCleans - and must find the violation under each of three switches describing the "
         "pinned revision. WaitGroup::wait is run against the last done() at every scheduling point of the real code (controlled "
         "scheduler). Real sockets: close()/term() injected into blocked recv / send (no peer, full pipe), connect retries, handshakes "
-        "that never complete (outbound, inbound), connections accepted at the moment of the close, streaming traffic with option / "
+        "that never complete (outbound, inbound; LINGER 0 and finite), connections accepted at the moment of the close, streaming traffic with option / "
         "monitor calls from other tasks, inproc connect() calls racing the binder's close / term (Inproc.tla: registry, request in a "
         "broadcast slot, one-shot reply; ConnectReturns, NoHalfOpenForever, NamesFree), API calls that go through the mailbox issued within a millisecond of "
         "close / term of the same socket (Mailbox.tla: AllReturn under every interleaving of enqueue / look / wait with mark / drain / drop), "
